@@ -101,7 +101,7 @@ func BuildAll(probeName string, cfgs []ProbeConfig) []Built {
 				// -maprange: generated code ranges over maps (deferred groups by label); the
 				// order is pinned (sorted) so that replay is deterministic
 				pkgs := append([]string{"-maprange"}, probe.RuntimePkgs...)
-				pkgs = append(pkgs, "probe/graph")
+				pkgs = append(pkgs, "probe/graph", "github.com/gorilla/websocket:^conn\\.go$")
 				b.Err = probe.BuildInstrumented(res.Dir, pkgs, "./harness", b.Bin)
 			}
 			out[i] = b
